@@ -808,6 +808,19 @@ Fixpoint ra_run (ops : list raop) (s : rastack) (k : nat) : list result * rastac
   | op :: t => let '(r, s1, k1) := ra_step op s k in let '(rs, s2, k2) := ra_run t s1 k1 in (r :: rs, s2, k2)
   end.
 
+(* executable validator of a dumped allocator state (used on the states of REAL pass runs): the slot owners are distinct, every
+   owner is a register that has its home, and every register with a home owns a slot *)
+Fixpoint nodupb (l : list nat) : bool :=
+  match l with
+  | [] => true
+  | x :: t => negb (existsb (Nat.eqb x) t) && nodupb t
+  end.
+
+Definition ra_check (s : rastack) : bool :=
+  nodupb (ra_slots s) &&
+  forallb (fun w => (w <? length (ra_home s))%nat && has_home s w) (ra_slots s) &&
+  forallb (fun w => implb (has_home s w) (existsb (Nat.eqb w) (ra_slots s))) (seq 0 (length (ra_home s))).
+
 (* the rewrite step replaces every register-home operand by [sp + slot offset]; with f186c27 a missing slot is an error *)
 Definition ra_rewrite (s : rastack) : result := if forallb (has_home s) (ra_refs s) then Ok else Oom.
 
@@ -881,5 +894,77 @@ Definition vm_step (op : vmop) (s : vms) (kv kh : nat) : result * vms * nat * na
   end.
 
 End VmModel.
+
+(* ------------------------------------------------------------------------------------------------------------------ *)
+(* core/string.cpp: String (small-string buffer of 30 characters, then malloc'ed storage) under a heap oracle           *)
+(* ------------------------------------------------------------------------------------------------------------------ *)
+Section StrModel.
+Variable okh : nat -> bool.      (* does the k-th malloc succeed *)
+
+Record str := mkstr { st_chars : list Z; st_cap : Z; st_large : bool }.
+Definition sso_capacity : Z := 30.
+Definition str_empty : str := mkstr [] sso_capacity false.
+Definition slen (s : str) : Z := Z.of_nat (length (st_chars s)).
+
+Definition align_up_z (x a : Z) : Z := ((x + a - 1) / a) * a.
+Definition pow2_ceil (x : Z) : Z := if x <=? 1 then 1 else 2 ^ (Z.log2 (x - 1) + 1).
+
+(* String_grow_capacity (sizes include the terminator) *)
+Definition str_grow_capacity (byte_size min_byte_size : Z) : Z :=
+  let bs := if byte_size <? 128 then 128 else if byte_size <? 512 then 512 else byte_size in
+  if bs <? min_byte_size then
+    let p := pow2_ceil min_byte_size in
+    if grow_threshold <? p then min_byte_size + min_byte_size mod grow_threshold else p
+  else bs.
+
+Inductive sop := SAppend (d : list Z) | SAssign (d : list Z) | SAppendChars (n : Z) | SAssignChars (n : Z) | SClear | SReset | STruncate (n : Z).
+
+Definition zchars (n : Z) : list Z := repeat 122 (Z.to_nat n).   (* 'z' *)
+
+(* oracle-free effect on the characters *)
+Definition str_spec (op : sop) (l : list Z) : list Z :=
+  match op with
+  | SAppend d => l ++ d
+  | SAssign d => d
+  | SAppendChars n => l ++ zchars n
+  | SAssignChars n => zchars n
+  | SClear | SReset => []
+  | STruncate n => if n <? Z.of_nat (length l) then firstn (Z.to_nat n) l else l
+  end.
+
+(* String::prepare(kAppend, size) *)
+Definition str_prepare_append (s : str) (size : Z) (k : nat) : result * str * nat :=
+  let new_size := size + slen s in
+  if st_cap s <? new_size then
+    if okh k then (Ok, mkstr (st_chars s) (str_grow_capacity (size + 1) (new_size + 1) - 1) true, S k) else (Oom, s, S k)
+  else (Ok, s, k).
+
+(* String::prepare(kAssign, size): used by assign_chars *)
+Definition str_prepare_assign (s : str) (size : Z) (k : nat) : result * str * nat :=
+  if st_cap s <? size then
+    if okh k then (Ok, mkstr (st_chars s) (align_up_z (size + 1) 128 - 1) true, S k) else (Oom, s, S k)
+  else (Ok, s, k).
+
+(* String::assign(data, size) has its own growth rule *)
+Definition str_assign_storage (s : str) (size : Z) (k : nat) : result * str * nat :=
+  if st_large s then
+    if size <=? st_cap s then (Ok, s, k)
+    else if okh k then (Ok, mkstr (st_chars s) (align_up_z (size + 1) 32 - 1) true, S k) else (Oom, s, S k)
+  else
+    if size <=? sso_capacity then (Ok, s, k)
+    else if okh k then (Ok, mkstr (st_chars s) size true, S k) else (Oom, s, S k).
+
+Definition str_step (op : sop) (s : str) (k : nat) : result * str * nat :=
+  let finish r s1 k1 := match r with Ok => (Ok, mkstr (str_spec op (st_chars s)) (st_cap s1) (st_large s1), k1) | _ => (r, s, k1) end in
+  match op with
+  | SAppend d => if (Z.of_nat (length d) =? 0) then (Ok, s, k) else let '(r, s1, k1) := str_prepare_append s (Z.of_nat (length d)) k in finish r s1 k1
+  | SAppendChars n => if n <=? 0 then (Ok, s, k) else let '(r, s1, k1) := str_prepare_append s n k in finish r s1 k1
+  | SAssign d => let '(r, s1, k1) := str_assign_storage s (Z.of_nat (length d)) k in finish r s1 k1
+  | SAssignChars n => if n <=? 0 then (Ok, mkstr [] (st_cap s) (st_large s), k) else let '(r, s1, k1) := str_prepare_assign s n k in finish r s1 k1
+  | SClear | STruncate _ => (Ok, mkstr (str_spec op (st_chars s)) (st_cap s) (st_large s), k)
+  | SReset => (Ok, str_empty, k)
+  end.
+
+End StrModel.
 
 Definition all_ok : nat -> bool := fun _ => true.
